@@ -1,4 +1,5 @@
 mod c02s;
+mod c03s;
 mod c05;
 mod c06;
 mod c07;
